@@ -41,6 +41,18 @@ func acts(b, mod, rem uint64) bool {
 	return b%mod == rem
 }
 
+// Salt: see Model/Forks.lean saltOf
+func Salt(id string) uint64 {
+	if id == "" {
+		return 0
+	}
+	c := id[len(id)-1]
+	if c >= 'a' && c <= 'z' {
+		return 7 * uint64(c-'a')
+	}
+	return 0
+}
+
 // ExecHook lets the harness observe every real module execution (name, block); nil by default.
 var ExecHook func(module string, block uint64)
 
@@ -50,6 +62,8 @@ func (sm scriptModule) ExecuteNewCall(ctx context.Context, call *wasm.Call, cach
 		return inst{}, fmt.Errorf("unknown script %q", call.Entrypoint)
 	}
 	b := call.Clock.Number
+	// content number: blocks of branch x of a fork tree are named <num>x; branch a (every canonical chain) has salt 0
+	e := b + Salt(call.Clock.Id)
 	if ExecHook != nil {
 		ExecHook(m.Name, b)
 	}
@@ -62,7 +76,7 @@ func (sm scriptModule) ExecuteNewCall(ctx context.Context, call *wasm.Call, cach
 	}
 	// digest of the inputs, in declaration order; `extra` = total length of the present map inputs
 	var sb strings.Builder
-	sb.WriteString(m.Name + "@" + strconv.FormatUint(b, 10))
+	sb.WriteString(m.Name + "@" + strconv.FormatUint(e, 10))
 	var extra int64
 	storeIdx := 0
 	for _, in := range m.Inputs {
@@ -125,7 +139,7 @@ func (sm scriptModule) ExecuteNewCall(ctx context.Context, call *wasm.Call, cach
 	}
 	switch m.Kind {
 	case "map":
-		if acts(b, m.Every, m.Rem) {
+		if acts(e, m.Every, m.Rem) {
 			call.SetReturnValue([]byte(sb.String()))
 		} else if m.SkipEmpty {
 			call.SkipEmptyOutput()
@@ -134,9 +148,9 @@ func (sm scriptModule) ExecuteNewCall(ctx context.Context, call *wasm.Call, cach
 		}
 	case "index":
 		var out []byte
-		if acts(b, m.Every, m.Rem) {
+		if acts(e, m.Every, m.Rem) {
 			for _, k := range m.Keys {
-				if acts(b, k.Mod, k.Rem) {
+				if acts(e, k.Mod, k.Rem) {
 					out = append(out, 0x0a, byte(len(k.Key)))
 					out = append(out, k.Key...)
 				}
@@ -144,18 +158,18 @@ func (sm scriptModule) ExecuteNewCall(ctx context.Context, call *wasm.Call, cach
 		}
 		call.SetReturnValue(out)
 	case "store":
-		if !acts(b, m.Every, m.Rem) {
+		if !acts(e, m.Every, m.Rem) {
 			break
 		}
 		for _, o := range m.Ops {
-			if !acts(b, o.Mod, o.Rem) {
+			if !acts(e, o.Mod, o.Rem) {
 				continue
 			}
 			key := o.KeyBase
 			if o.KeyMod > 0 {
-				key += strconv.FormatUint(b%o.KeyMod, 10)
+				key += strconv.FormatUint(e%o.KeyMod, 10)
 			}
-			v := o.ValMul*int64(b) + o.ValAdd + extra
+			v := o.ValMul*int64(e) + o.ValAdd + extra
 			txt := strconv.FormatInt(v, 10)
 			switch o.Kind {
 			case "set":
